@@ -36,7 +36,7 @@ def run(ctx, out):
     out.rule = ('grammar-directed types (depth <= 3 quick / 4 thorough) x values from three streams (valid from the type / one or two '
                 'type-blind edits of a valid value / arbitrary); both passes called directly on the converter and through from_data. '
                 'Non-trivial = non-leaf type; distinct by (type term, value).')
-    convprop.run(ctx, out, PROP, monitor, cfg={'weights': {'cond': 2.0, 'tagged': 1.2, 'class': 2.2, 'std': 1.5}, 'enum_tuple': True}, extra_cases=lambda rng: convprop.cases_from_pairs(gen.tagged_shape_cases(rng), rng, 'tagged-shapes') + convprop.cases_from_pairs(gen.std_kind_cases(rng), rng, 'library-types') + convprop.cases_from_pairs(gen.raising_predicate_cases(rng), rng, 'raising-predicates') + convprop.cases_from_pairs(gen.cond_on_converted_cases(rng), rng, 'conditions-on-converted-values'))
+    convprop.run(ctx, out, PROP, monitor, cfg={'weights': {'cond': 2.0, 'tagged': 1.2, 'class': 2.2, 'std': 1.5}, 'enum_tuple': True}, extra_cases=lambda rng: convprop.cases_from_pairs(gen.tagged_shape_cases(rng), rng, 'tagged-shapes') + convprop.cases_from_pairs(gen.std_kind_cases(rng), rng, 'library-types') + convprop.cases_from_pairs(gen.raising_predicate_cases(rng), rng, 'raising-predicates') + convprop.cases_from_pairs(gen.cond_on_converted_cases(rng), rng, 'conditions-on-converted-values') + convprop.cases_from_pairs(gen.degenerate_class_cases(rng), rng, 'degenerate-classes'))
 
 
 def replay(rep, out):
